@@ -95,3 +95,81 @@ func (*Engine).Flush
   loop 2 invariant forall(j, 0, len(completions), exists(k, 0, $i, completions[j] == $s[k]))
   loop 2 invariant $s == p.runs
 @*/
+
+/*@
+// ---------------------------------------------------------------- C15: partitions, per-partition numbering, one step
+extern closure
+  props C15
+  option pure
+
+extern matchStates
+  props C15
+  option pure
+
+extern isComplete
+  props C15
+  option pure
+
+extern (*Engine).evalDefine
+  props C15
+  option pure
+
+extern (*run).materialize
+  props C15
+
+extern (*Engine).emitLazy
+  props C15
+  modifies *
+
+extern (*Engine).emitGreedy
+  props C15
+  modifies *
+
+extern (*Engine).capPending
+  props C15
+  modifies *
+
+extern (*Engine).evictIfNeeded
+  props C15
+  modifies *
+
+pred partOf(e, k) := unbox(e.partMap[k].Value, *partition)
+pred mapUnchanged(m) := forallv(k, "", (dom(m, k) <==> old(dom(m, k))) && m[k] == old(m[k]))
+
+func (*Engine).getPartition
+  props C15
+  requires e != nil && e.partMap != nil
+  modifies mapof(e.partMap), heap(list.Element.Value)
+  ensures a-known-key-returns-its-own-partition: old(dom(e.partMap, key)) ==> result == old(partOf(e, key)) && mapUnchanged(e.partMap)
+  ensures a-new-key-gets-a-fresh-partition: !old(dom(e.partMap, key)) ==> fresh(result) && result.key == key
+  ensures a-new-partition-starts-empty-and-unnumbered: !old(dom(e.partMap, key)) ==> result.seq == 0 && result.nextStart == 0 && result.matchNo == 0 && len(result.runs) == 0
+  ensures a-new-partition-is-registered-under-its-key: !old(dom(e.partMap, key)) ==> dom(e.partMap, key) && partOf(e, key) == result
+  ensures other-partitions-are-untouched: forallv(k, "", k != key ==> (dom(e.partMap, k) <==> old(dom(e.partMap, k))) && e.partMap[k] == old(e.partMap[k]))
+
+func (*Engine).advance
+  props C15
+  ensures every-successor-extends-this-run-by-this-row: forall(i, 0, len(result), result[i] != nil && fresh(result[i]) && result[i].nrows == r.nrows + 1 && result[i].startSeq == r.startSeq && result[i].startTs == r.startTs && result[i].head != nil && result[i].head.row == row && result[i].head.prev == r.head)
+  before evalDefine a-row-is-tested-against-the-define-of-the-symbol-it-would-be-labelled-with: $arg4 == row && $arg5 == m.symbol
+  loop 1 invariant forall(i, 0, len(out), out[i] != nil && fresh(out[i]) && out[i].nrows == r.nrows + 1 && out[i].startSeq == r.startSeq && out[i].startTs == r.startTs && out[i].head != nil && out[i].head.row == row && out[i].head.prev == r.head)
+
+func (*Engine).step
+  props C15
+  modifies *
+  before closure a-new-match-may-start-only-at-or-after-the-skip-point: seq >= p.nextStart
+  before advance only-runs-inside-within-and-the-row-cap-are-advanced: $arg2 == row
+  before ingestPending completed-runs-of-this-partition-are-queued-in-this-partition: $arg1 == p
+  before emitGreedy results-are-emitted-for-this-partition: $arg1 == p
+  before emitLazy results-are-emitted-for-this-partition: $arg1 == p
+
+func (*Engine).Process
+  props C15
+  requires engine-was-built-by-NewEngine: e.partMap != nil
+  modifies *
+  observe part := getPartition
+  observe raw := toInt64
+  observe ts := normalizeTs
+  before toInt64 the-event-time-is-read-from-the-order-by-column-of-this-row: $arg0 == row[e.tsField]
+  before normalizeTs the-raw-event-time-is-normalised: $arg0 == $raw
+  before getPartition the-partition-is-looked-up-under-the-rows-own-key: $arg1 == partitionKey
+  before step the-row-is-stepped-in-its-own-partition-under-that-partitions-own-next-number: $arg1 == $part && $arg2 == row && $arg4 == $arg1.seq && $arg3 == $ts
+@*/
